@@ -1,7 +1,7 @@
 (* C15 correspondence: cases written by harness/cmd/c15 are evaluated here by vm_compute.
    Every float64 the implementation consumed or returned is passed as the exact dyadic rational it
    is ([Dy m e] / [FD m e] = m * 2^e), so all comparisons below are exact rational arithmetic. *)
-From PF Require Export Base.Bytes Formats.Splat Formats.Spz Formats.SpzExtra Check.Common.
+From PF Require Export Base.Bytes Formats.Splat Formats.SplatExtra Formats.Spz Formats.SpzExtra Check.Common.
 From Coq Require String.
 Notation string := String.string.
 Open Scope N_scope.
@@ -117,6 +117,19 @@ Definition raw_prop1 (bytes : list N) (k : nat) (o : osplat) : bool :=
   && rotb 0%nat s0 && rotb 1%nat s1 && rotb 2%nat s2 && rotb 3%nat s3.
 Fixpoint raw_prop (bytes : list N) (k : nat) (rd : list osplat) : bool :=
   match rd with [] => true | o :: rd' => raw_prop1 bytes k o && raw_prop bytes (S k) rd' end.
+
+(* splat.Write's checks before the record loop: topology (point or not), attribute length, attributes present;
+   observed: error or not, bytes written *)
+Definition guard_corr (point : bool) (n : nat) (present : list string) (werr : bool) (nbytes : N) : bool :=
+  match write_guard point n present with
+  | WNothing => negb werr && (nbytes =? 0)
+  | WError => werr && (nbytes =? 0)
+  | WRecords => negb werr && (nbytes =? 32 * N.of_nat n)
+  end.
+(* the property's count clause on a complete cloud; nothing is demanded of the other meshes *)
+Definition guard_prop (point : bool) (n : nat) (present : list string) (werr : bool) (nbytes : N) : bool :=
+  if point && forallb (fun a => existsb (String.eqb a) present) required_attrs
+  then negb werr && (nbytes =? 32 * N.of_nat n) else true.
 
 (* ---------- SPZ ---------- *)
 Definition f3 := (fval * fval * fval)%type.
@@ -357,6 +370,7 @@ Local Close Scope uint63_scope.
 Inductive case :=
 | CSplat (cloud : list isplat) (impl_bytes : list N) (rd_ok : bool) (rd : list osplat)
 | CSplatRead (bytes : list N) (rd_ok : bool) (rd : list osplat)
+| CSplatGuard (point : bool) (n : nat) (present : list string) (werr : bool) (nbytes : N)
 | CSpz (h : header) (recs : list prec) (stream : list N) (impl : option ispz)
 | CSpzRaw (stream : list N) (impl : option ispz)
 (* spz.ReadHeader on (the first bytes of) a stream: returned header, no-error flag *)
@@ -375,6 +389,7 @@ Definition corr_ok (c : case) : bool :=
       let hi := write (map (to_splat 1) cloud) in
       between_l lo ex hi && between_l lo ib hi && read_corr ib rd_ok rd
   | CSplatRead bytes rd_ok rd => read_corr bytes rd_ok rd
+  | CSplatGuard point n present werr nbytes => guard_corr point n present werr nbytes
   | CSpz h recs stream impl => bytes_eqb (encode_ref h recs) stream && spz_corr stream impl
   | CSpzRaw stream impl => spz_corr stream impl
   | CSpzHdr stream hdr ok => hdr_corr stream hdr ok
@@ -407,6 +422,7 @@ Definition prop_ok (c : case) : bool :=
   | CSplatRead bytes rd_ok rd =>
       Nat.eqb (length rd) (length bytes / 32) && Bool.eqb rd_ok (Nat.eqb (length bytes mod 32) 0)
       && raw_prop bytes 0 rd
+  | CSplatGuard point n present werr nbytes => guard_prop point n present werr nbytes
   | CSpz h recs _ impl => spz_prop h recs impl
   | CSpzRaw _ _ => true
   | CSpzHdr stream hdr ok => hdr_prop stream hdr ok
